@@ -20,7 +20,7 @@ TECHNIQUE = ("property-based testing (Hypothesis) with recording privacy plug-in
              "(own implementation of the transforms) must decrypt every request; multi-session cases rotate passwords, "
              "hashes and engines inside one process")
 RULE = ("case = 1..3 sessions in one process, each = authPriv user (MD5 | SHA-1, auth and privacy passwords 1..64 octets, plug-in "
-        "verifstream | verifblock) x engine id x optional context engine id / name x operation {get, multiget, getnext, set, "
+        "verifstream | verifblock, salt of any shape: 8 octets, 16-octet counter with leading zeros, 8 or 12 zero octets, empty, 40 octets; likewise in responses) x engine id x optional context engine id / name x operation {get, multiget, getnext, set, "
         "multiset, walk, bulkwalk, a SET refused with error-status 17 inside an encrypted response} with marker strings in SET values and context name; sessions may reuse user name and "
         "engine with a rotated privacy password or the other hash; plus the boundary of an EMPTY privacy password (nothing may leave in clear); non-trivial = a SET carrying a marker, a payload of >= 2 "
         "keystream blocks, or >= 2 sessions sharing user name and engine; distinct = SHA-1 of canonical JSON case")
@@ -53,7 +53,19 @@ def run_session(s, classes):
     plug = _plugins()
     for p in plug.values():
         del p.CALLS[:]
+        p.SALT_MODE[0] = s.get("salt", "default")
+    if s.get("salt", "default") != "default" or s.get("resp_salt", "default") != "default":
+        classes.add("salt_shapes")
+    try:
+        return _run_session(s, classes, proto, plug)
+    finally:
+        for p in plug.values():
+            p.SALT_MODE[0] = "default"
+
+
+def _run_session(s, classes, proto, plug):
     agent, client = vworld.make_world(proto, dict(DB), request_cap=40)
+    agent.salt_mode = s.get("resp_salt", "default")
     O = vworld.OID
     op = s["op"]
     secret = MARK + b"/" + bytes.fromhex(s.get("pad", ""))
@@ -253,6 +265,10 @@ def session(draw):
              priv_pw=draw(st.binary(min_size=1, max_size=64)).hex(),
              priv=draw(st.sampled_from(["verifstream", "verifblock"])),
              op=draw(st.sampled_from(OPS)), pad=draw(st.binary(max_size=80)).hex())
+    if draw(st.integers(0, 2)) == 0:
+        # the shape of the salt is the plug-in's (and the agent's) own business
+        s["salt"] = draw(st.sampled_from(["counter16", "counter16", "zeros12", "zeros8", "empty", "long40", "ff12"]))
+        s["resp_salt"] = draw(st.sampled_from(["default", "counter16", "zeros12", "empty", "long40", "ff12"]))
     if draw(st.integers(0, 3)) == 0:
         s["ctx_engine"] = draw(st.one_of(st.sampled_from(ENGINES), st.binary(min_size=5, max_size=32))).hex()
     if draw(st.integers(0, 2)) == 0:
